@@ -20,7 +20,9 @@ def generate(rng, tier):
              ("**", "abc"), ("**/a", "x/a"), ("a/**/b", "a/b"), ("a/**/b", "a/x/y/b"), ("a**", "a"), ("**a", "a"), ("a/**", "a/x"),
              ("/**/**/a", "/x/a"), ("x/**/**/a", "x/y/a"), ("**/**/a", "y/a"), ("**/**", "a/b"),
              ("libX11-[0-9]*", "libx11-1.8.7"), ("foo-[a-z]", "foo-Q"), ("foo-[!a-z]", "foo-Q"), ("foo-[A-Z]", "foo-q"), ("Ab*", "ab1"),
-             ("[a-", "a"), ("[!a-", "a"), ("foo-[^0-9]*", "foo-1.0"), ("foo-[^0-9]*", "foo-a1"), ("x[^]y", "x^y"), ("[^a]", "^"), ("[^a]", "b"),
+             ("[a-", "a"), ("[!a-", "a"), ("foo-[0-9]*", "foo-\u0663.1"), ("foo-[0-9]*", "foo-\u00b2"), ("foo-[0-9]*", "foo-\uff11"), ("foo-[0-9]*", "foo-\u2167"),
+             ("foo-[0-9]*", "foo-\u00bd"), ("foo-[a-z]*", "foo-\u00e9"), ("foo-[A-Z]", "foo-\u00c9"), ("?oo-[0-9]*", "\u00e9oo-1.0"), ("?a", "\u00fca"), ("?a", "\u2028a"), ("??", "\U0001F4E6a"),
+             ("a?", "a\U0001F4E6"), ("[!a]b", "\U0001F4E6b"), ("*a", "\u00e9a"), ("foo-[^0-9]*", "foo-1.0"), ("foo-[^0-9]*", "foo-a1"), ("x[^]y", "x^y"), ("[^a]", "^"), ("[^a]", "b"),
              ("*-[0-9]*", ".foo-1.0"), ("?foo", ".foo"), ("[.]a", ".a"), ("a/*", "a/.b"), ("a/?b", "a/.b"), ("[--0]", "."), ("[a-c-e]", "-"), ("[a-c-e]", "d"), ("é*", "éa"), ("?", "é")]
     for p, nme in fixed:
         cases.append(Case("pat.match", [enc(p), enc(nme)], tag="fixed"))
@@ -48,6 +50,11 @@ def generate(rng, tier):
             names = [pgen.sample_name(rng, toks)]
             names.append(pgen.edit(rng, names[0]))
             names.append(names[0].swapcase())
+            # a non-ASCII digit / letter where an ASCII one matched: sets and ranges are over code points, not Unicode classes
+            for i, ch in enumerate(names[0]):
+                if ch.isdigit() or ch.isalpha():
+                    names.append(names[0][:i] + rng.choice("\u0663\u00b2\uff11\u00e9\u0131\U0001F600") + names[0][i + 1:])
+                    break
             names.append(pgen.edit(rng, p))
             if rng.random() < 0.3:
                 names.append(rng.choice(["", p[:1], p[:2], rng.choice(pgen.ALPHA)]))
